@@ -242,3 +242,18 @@ def merge_case_major(trace_sets, out_path):
                     f.write(line)
                     n += 1
     return n
+
+
+def run_apalache_law(law, timeout=600):
+    """Decides one arithmetic law of spec/APA_Arith.tla over the full 32-bit domain with Apalache."""
+    out = os.path.join(WORK, "apalache-%s-%d" % (law, os.getpid()))
+    try:
+        r = subprocess.run(["apalache-mc", "check", "--length=0", "--inv=" + law, "--out-dir=" + out, "APA_Arith.tla"], cwd=SPEC,
+                           stdout=subprocess.PIPE, stderr=subprocess.STDOUT, text=True, timeout=timeout)
+    except subprocess.TimeoutExpired:
+        raise ToolError("apalache timed out on " + law)
+    finally:
+        shutil.rmtree(out, ignore_errors=True)
+    if "The outcome is: NoError" not in r.stdout:
+        raise ToolError("Apalache does not confirm the specification-level law %s:\n%s" % (law, r.stdout[-2000:]))
+    return dict(law=law, outcome="NoError", domain="all 32-bit values (symbolic)")
